@@ -7,6 +7,7 @@ mod build_driver;
 mod config;
 mod corpus;
 mod gen;
+mod scan;
 mod topo;
 
 fn main() {
@@ -22,6 +23,7 @@ fn main() {
         "build" => build_driver::main(rest),
         "corpus" => corpus::main(rest),
         "config" => config::main(rest),
+        "scan" => scan::main(rest),
         other => {
             eprintln!("unknown subcommand {}", other);
             2
